@@ -4,6 +4,7 @@
 mod util;
 mod c_path;
 mod c_line;
+mod c_sysl;
 
 use std::io::Write;
 
@@ -27,6 +28,24 @@ fn main() {
         std::process::exit(2);
     }
     let comp = args[1].clone();
+    if comp == "pack" {
+        // s4h pack lz4 <in> <out>
+        let data = std::fs::read(&args[3]).unwrap();
+        match args[2].as_str() {
+            "lz4" => {
+                let f = std::fs::File::create(&args[4]).unwrap();
+                let mut enc = lz4_flex::frame::FrameEncoder::new(f);
+                enc.write_all(&data).unwrap();
+                enc.finish().unwrap();
+            }
+            "xz" => {
+                let mut f = std::fs::File::create(&args[4]).unwrap();
+                lzma_rs::xz_compress(&mut std::io::Cursor::new(&data), &mut f).unwrap();
+            }
+            _ => { eprintln!("unknown pack kind"); std::process::exit(2); }
+        }
+        return;
+    }
     let mut opts = util::Opts { seed: 1, n: 1000, thorough: false, extra: vec![] };
     let mut i = 2;
     let mut replay = false;
@@ -44,6 +63,7 @@ fn main() {
     match comp.as_str() {
         "path" => if replay { replay_loop(&mut out, c_path::replay_line) } else { c_path::run(&opts, &mut out) },
         "line" => if replay { replay_loop(&mut out, c_line::replay_line) } else { c_line::run(&opts, &mut out) },
+        "sysl" => if replay { replay_loop(&mut out, c_sysl::replay_line) } else { c_sysl::run(&opts, &mut out) },
         "path-oracle" => c_path::oracle(&opts, &mut out),
         _ => {
             eprintln!("unknown component {}", comp);
